@@ -247,3 +247,24 @@ def run(chk):
     from .c06 import raw_vector_rule
     chk.rule("R4", "expand.rs reads member/type instruction vectors only through the per-conversion accessors", floor=1)
     chk.guard("R4", lambda: raw_vector_rule(chk, "R4", member_only=True))
+
+
+def import_lookup_contracts(chk, rule, accessors, with_chain=True, desc=None):
+    """Other properties treat the instruction lookups as opaque summaries; their contracts (dedicated-then-default with one residual filter;
+    the applicable_attr chain) are imported here as a rule of the importing property."""
+    from ..core import Check
+    sub = Check("C05", chk.repo, chk.tier)
+    sub.guard("R3", lambda: r3(sub))
+    if with_chain:
+        sub.guard("R1", lambda: r1_r2(sub))
+    chk.rule(rule, desc or "contracts of the instruction lookups this property's tables summarise (dedicated-then-default, per-kind filter, lookup chain)", floor=max(1, len(accessors)))
+    for r_, why in sub.inconclusive:
+        chk.inconc(rule, why)
+    for i in sub.instances:
+        take = (i.rule == "R3" and any(i.key.endswith("::" + a) for a in accessors)) or (with_chain and i.rule == "R1")
+        if not take:
+            continue
+        if i.ok:
+            chk.ok(rule, "lookup:" + i.key, i.file, i.line)
+        else:
+            chk.bad(rule, "lookup:" + i.key, i.file, i.line, i.what, i.expected, i.found)
